@@ -22,6 +22,7 @@ TN_KEYS = ['targetname', 'targetname', 'TargetName', 'TARGETNAME']
 OTHER_KEYS = ['origin', 'Origin', 'x']
 QUERIES = ['a', 'A', 'ab', 'AB', 'a*', 'A*', '*', '', 'a1', 'worldspawn', 'WORLDSPAWN', 'ab*', 'info_null', 'b']
 QUERIES_SH = ['a', 'A*', 'ab', 'worldspawn', '']
+ADD_FORMS = ['gen', 'iter', 'map', 'list', 'tuple']      # how the iterable is handed to VMF.add_ents
 MAX_OBJS = 6
 MODEL_DIGESTS: dict = {'CopySet.__iter__': '18a885efeefc', '_remove_copyset': '590e345663d7', 'VMF.search': '8cbe23d1283f',
                        'Entity.make_unique': '11a000401c4a'}
@@ -108,7 +109,7 @@ def gen_ops(rng: random.Random, n: int, names=NAMES, allow_iter: bool = True) ->
                 ops.append(('add', m, e))
         elif r < 0.34:
             es = [e for e in (pick_ent(m, allow_spawn=False) for _ in range(rng.randint(0, 3))) if e is not None]
-            ops.append(('adds', m, es))
+            ops.append(('adds', m, es, rng.choice(ADD_FORMS)))
         elif r < 0.43:
             e = pick_ent(m)
             if e is not None:
@@ -275,6 +276,19 @@ CORPUS = [
      ('iter', 0, 'target', 'a', ('uniq', 'a')), ('iter', 0, 'class', 'a', ('set', 'classname', 'A')),
      ('iter', 0, 'class', 'a', ('clear',))],
     [('create', 0, 'ab', []), ('probe', 0, 'target', 'Ab'), ('probe', 0, 'class', 'AB'), ('probe', 0, 'target', None)],
+    # round 3: the error path of the worldspawn guard (a rejected re-class must leave the worldspawn indexed), on a
+    # fresh and on a parsed map, through [] / update / another spelling; add_ents with every form of iterable
+    [('set', 0, 0, 'classname', 'a')],
+    [('update', 0, 0, [('targetname', 'Ab'), ('classname', 'Ab')]), ('set', 0, 0, 'targetname', '')],
+    [('set', 0, 0, 'ClassName', 'a'), ('set', 0, 0, 'classname', 'WorldSpawn'), ('probe', 0, 'class', 'worldspawn')],
+    [('parse', [('classname', 'worldspawn'), ('targetname', 'a')], [([('classname', 'a')], False)]),
+     ('set', 2, 1, 'classname', 'a'), ('rem', 2, 2, True)],
+    [('new', 0, [('classname', 'a'), ('targetname', 'Ab')]), ('new', 0, [('classname', 'A')]), ('adds', 0, [1, 2], 'gen'),
+     ('set', 0, 1, 'targetname', 'a1')],
+    [('new', 0, [('classname', 'a')]), ('adds', 0, [1], 'iter'), ('rem', 0, 1, False)],
+    [('new', 0, [('classname', 'a')]), ('adds', 0, [1], 'map')],
+    [('new', 0, [('classname', 'a')]), ('new', 0, [('classname', 'Ab')]), ('adds', 0, [1, 2, 1], 'list'), ('rem', 0, 1, True)],
+    [('new', 0, [('classname', 'a')]), ('adds', 0, [1], 'tuple'), ('adds', 0, [], 'gen')],
 ]
 
 
@@ -291,6 +305,8 @@ def search(ck: Ck) -> None:
         ck.hist('oracle_len', len(ops) // 10 * 10)
         for op in ops:
             ck.hist('oracle_ops', op[0])
+            if op[0] == 'adds':
+                ck.hist('add_ents_iterable_form', op[3] if len(op) > 3 else 'gen')
         kinds = {op[0] for op in ops}
         if kinds & {'create', 'add', 'adds', 'parse'} and kinds & {'set', 'del', 'dels', 'pop', 'popitem', 'update', 'clear', 'uniq', 'rem', 'iter'}:
             ck.seen(('oracle', repr(ops)))
@@ -486,7 +502,7 @@ Definition sq2 (s : list nat) (q : str) (st : mstate) : bool :=
 
 def corr(ck: Ck, escalate: bool = False, shapes: bool = False) -> None:
     # quick tier with a broken tie: a larger random budget, but the exhaustive short histories stay in thorough
-    n = 2500 if ck.thorough else (600 if (escalate or ck.tie_broken) else 240)
+    n = 2500 if ck.thorough else (600 if (escalate or ck.tie_broken) else 200)
     cases = []
     RAISED.clear()
     seqs: list = list(CORPUS)
@@ -516,7 +532,7 @@ def corr(ck: Ck, escalate: bool = False, shapes: bool = False) -> None:
     bad_q: list[tuple[int, Any]] = []
     bad_i: list[tuple[int, Any]] = []
     bad_q2: list[tuple[int, Any]] = []
-    B = min(120, max(40, -(-len(cases) // 6)))     # quick: 6 parallel batches
+    B = min(120, max(34, -(-len(cases) // 6)))     # quick: 6 parallel batches
     from concurrent.futures import ThreadPoolExecutor
     from harness.common import parse_coq_nested
 
@@ -688,7 +704,7 @@ def run(ck: Ck) -> None:
         t0 = time.time()
     ck.rule = ('histories over 2-3 real VMF objects with at most 6 entities each; names drawn from '
                "{a, A, Ab, aB, '', a1, worldspawn} (oracle stream also ß/SS/ss/İ), keys from classname/targetname in "
-               'three spellings plus two other keys; operations create/new/copy/add/adds/remove/set/del/tuple-del/pop/'
+               'three spellings plus two other keys; operations create/new/copy/add/adds (iterable passed as generator, iterator, map object, list or tuple)/remove/set/del/tuple-del/pop/'
                'popitem/setdefault/update/clear/make_unique/export/parse/new map/defaultdict read of an index (folded or '
                'un-folded key)/iterate-while-mutating (loop bodies: set/del/remove/pop/clear/make_unique/create a like-named '
                'entity = late addition); a history is non-trivial when it adds an entity to a map and afterwards mutates keys '
